@@ -115,6 +115,46 @@ CHECKS = {
         note="Metric fields are located under the schema key or the key in use at the pinned commit; unknown extra keys are "
              "ignored.",
         ref="3 C11"),
+    "C12": dict(
+        technique="runtime differential monitor: from_rh_vector outcome vs. sequential acceptance model; round-trip relation",
+        text="rh_vector() is compared with '%.1f' % base + '/' + clean_vector() and round-tripped through from_rh_vector; "
+             "from_rh_vector is driven with, per sampled vector, its own score, all 101 representable scores, the other "
+             "slots' scores, a dozen float() spellings that must be accepted, near values (b+1e-15, b+0.05 ...), nan/inf, "
+             "non-numbers, missing separators, and field-level mutant / other-version vector parts behind good, wrong and "
+             "non-numeric heads; each outcome (accept / exact exception class) must be one the model allows.",
+        note="'Parses as a number' = Python float(); the computed base score is the library's (C01-C03). Where head and "
+             "vector part are both faulty either applicable error is accepted.",
+        ref="3 C12"),
+    "C13": dict(
+        technique="postcondition on parse_cvss_from_text(): totality, soundness, completeness against an independent scanner, "
+                  "uniqueness",
+        text="Texts are assembled from valid v2/v3/v4 vectors (incl. the 26-character minimum), one-edit near-misses, "
+             "content-invalid vectors, repeats and re-spelled repeats, glue characters, fragments, non-ASCII, plus "
+             "megabyte/degenerate texts. An independent scanner implementing the property's sentence literally lists the "
+             "delimited valid vectors that must be represented; each result must come from a substring that the independent "
+             "recogniser accepts for the result's class; results pairwise unequal.",
+        note="Supplied string of a result observed via as_json()['vectorString']; list order never compared.",
+        ref="3 C13"),
+    "C15": dict(
+        technique="postcondition on temporal_vector()/environmental_vector(): structure, values, score preservation",
+        text="Both sub-vectors of each sampled v2/v3 object are parsed and compared with the specification group order and "
+             "the expected value of every metric (stated / ND / X / inherited base value); the vector re-assembled from base "
+             "metrics + both sub-vectors is constructed and must score identically (incl. None-ness). Each-choice over all "
+             "optional values, all pairs inside the environmental group, random; a run that never observed some "
+             "(metric, value) is inconclusive.",
+        note="Group orders typed from the specifications.",
+        ref="3 C15"),
+    "C16": dict(
+        technique="trace monitor of the stdin/stdout dialogue against a sequential model (order taken from a witness)",
+        text="ask_interactively is driven through replaced sys.stdin/sys.stdout for all 4 versions x {mandatory, all}: for "
+             "EVERY (metric, value) a script selecting it in as-is/lower/upper/mixed case, plus junk, empty answers on "
+             "mandatory and optional metrics, answers legal only for another metric, padded answers, truncation at every "
+             "index. The (returned fields, number of reads) pair or the EOFError must be an outcome of the independent "
+             "dialogue model; the class must accept the result. Evidence states how many (metric, value) pairs were "
+             "actually selected (all 420 across modes). Found and fixed F1 (v4 U values unselectable).",
+        note="Question order is not fixed by the property: witnessed by the returned vector / a probing run. Padded answers: "
+             "both behaviours allowed.",
+        ref="3 C16"),
     "C14": dict(
         technique="relational runtime monitor over severity lines; thorough = offline numpy checker over recorded score tables",
         text="Scores observed while one metric runs through its severity order with all else fixed must be non-increasing. "
